@@ -40,9 +40,27 @@ def spellings(name):
 
 
 class World(object):
-    def __init__(self, names=None):
+    def __init__(self, names=None, via_load=False):
         names = names or {'cls': 'Ab', 'plain': 'Xy', 'ident': 'iD', 'ref': 'Rf', 'tcls': 'Tq', 'tkey': 'K'}
         self.names = names
+        if via_load:
+            # the same two instances, loaded from text with a dangling and a null referential value
+            text = ('CREATE TABLE %(cls)s (%(plain)s INTEGER, %(ident)s INTEGER, %(ref)s INTEGER);\n'
+                    'CREATE TABLE %(tcls)s (%(tkey)s INTEGER);\n'
+                    'CREATE UNIQUE INDEX I1 ON %(cls)s (%(ident)s);\n'
+                    'CREATE ROP REF_ID R1 FROM MC %(cls)s (%(ref)s) TO 1C %(tcls)s (%(tkey)s);\n'
+                    'INSERT INTO %(tcls)s VALUES (77);\n'
+                    'INSERT INTO %(cls)s VALUES (0, 0, 5);\n'
+                    'INSERT INTO %(cls)s VALUES (41, 42, 6);\n') % names
+            l = xtuml.ModelLoader()
+            l.input(text)
+            m = l.build_metamodel(xtuml.IntegerGenerator())
+            self.m = m
+            self.t = m.select_any(names['tcls'])
+            self.insts = list(m.select_many(names['cls']))
+            self.model = [{names['plain']: 0, names['ident']: 0, 'ref': None},
+                          {names['plain']: 41, names['ident']: 42, 'ref': None}]
+            return
         m = xtuml.MetaModel(xtuml.IntegerGenerator())
         m.define_class(names['cls'], [(names['plain'], 'INTEGER'), (names['ident'], 'INTEGER'), (names['ref'], 'INTEGER')])
         m.define_class(names['tcls'], [(names['tkey'], 'INTEGER')])
@@ -235,7 +253,7 @@ def run_sequence(case, names=None, value_pool=(1, 2, 0)):
         names = VARIANTS[v]
     elif v:
         names = LONG_VARIANTS[v]
-    w = World(names)
+    w = World(names, via_load=int(sha(case['ops'])[2:4], 16) % 3 == 0)
     for op in case['ops']:
         apply(w, op, case)
     check(w, case, value_pool)
